@@ -87,6 +87,8 @@ def lib_accept(sc):
     from pytoniq_core.tl.block import BlockIdExt
     nodes = [ValidatorDescr(type_='validator', public_key=SigPubKey(k), weight=w) for k, w in sc['nodes']]
     sigs = [{'node_id_short': i.hex(), 'signature': s} for i, s in sc['sigs']]
+    for j, style in (sc.get('id_spelling') or {}).items():  # another spelling of the SAME id (bytes.fromhex ignores case / spaces)
+        sigs[int(j)]['node_id_short'] = spell(sigs[int(j)]['node_id_short'], style)
     for j, txt in (sc.get('id_text') or {}).items():      # a node_id_short that is not the hex of any bytes (bytes.fromhex raises)
         sigs[int(j)]['node_id_short'] = txt
     blk = BlockIdExt(sc['wc'], sc['shard'], sc['seqno'], sc['root'], sc['file'])
@@ -95,6 +97,17 @@ def lib_accept(sc):
     except Exception:
         return False
     return r is None or bool(r)
+
+
+def spell(h, style):
+    """a different textual spelling of the same bytes, as accepted by bytes.fromhex"""
+    if style == 'upper':
+        return h.upper()
+    if style == 'spaced':
+        return ' '.join(h[i:i + 2] for i in range(0, len(h), 2))
+    if style == 'mixed':
+        return ''.join(c.upper() if i % 3 == 0 else c for i, c in enumerate(h))
+    return h
 
 
 def hx(b):
@@ -118,6 +131,7 @@ def model_line(sc, payload):
 
 def to_json(sc):
     return {'kind': sc['kind'], 'expect': sc['expect'], 'why': sc.get('why', ''), 'id_text': sc.get('id_text') or {},
+            'id_spelling': sc.get('id_spelling') or {},
             'nodes': [[k.hex(), str(w)] for k, w in sc['nodes']],
             'sigs': [[i.hex(), s.hex()] for i, s in sc['sigs']],
             'wc': sc['wc'], 'shard': str(sc['shard']), 'seqno': sc['seqno'], 'root': sc['root'].hex(), 'file': sc['file'].hex()}
@@ -125,6 +139,7 @@ def to_json(sc):
 
 def from_json(j):
     return {'kind': j['kind'], 'expect': j['expect'], 'why': j.get('why', ''), 'id_text': j.get('id_text') or {},
+            'id_spelling': j.get('id_spelling') or {},
             'nodes': [(bytes.fromhex(k), int(w)) for k, w in j['nodes']],
             'sigs': [(bytes.fromhex(i), bytes.fromhex(s)) for i, s in j['sigs']],
             'wc': j['wc'], 'shard': int(j['shard']), 'seqno': j['seqno'], 'root': bytes.fromhex(j['root']), 'file': bytes.fromhex(j['file'])}
@@ -334,7 +349,13 @@ def scenario(rng, pool, n, mode, target, fault):
         rng.shuffle(sigs)
         why += f'; entries repeated until the naive weight is 3*{s} vs 2*{total}'
         expect = False
-    return dict(kind=kind, expect=expect, why=why, nodes=b['nodes'], sigs=sigs,
+    spelling = {}
+    if fault in ('dup', 'dup-pad', 'none', 'perm') and rng.random() < 0.6:
+        # the same validator under different textual spellings of its id is still the same validator
+        spelling = {str(j): rng.choice(['upper', 'spaced', 'mixed']) for j in range(len(sigs)) if rng.random() < 0.5}
+        if spelling:
+            why += '; some node_id_short spelled in upper case / with spaces'
+    return dict(kind=kind, expect=expect, why=why, nodes=b['nodes'], sigs=sigs, id_spelling=spelling,
                 wc=rng.choice([-1, 0, 5]), shard=rng.choice([-2 ** 63, 2 ** 62, -2 ** 62]), seqno=rng.randrange(2 ** 31), root=root, file=file)
 
 
